@@ -1352,12 +1352,12 @@ def plan_sessions(ctx, oracle, engines, harness_exe, traced):
     K4 = ("KRRK", "KQKN", "KQKB", "KQKR", "KQQK", "KRBK", "KRNK")
     groups = [
         # (sessions, searches each, dtm range, depths, traced, material classes, threads)
-        (ctx.scale(2, 6), 3, (3, 5), [10, 11], True, K3 + K4, [2, 3, 4]),      # short mates: traces full of mate-score nodes
-        (ctx.scale(3, 16), 5, (8, 16), [11, 12], True, K3, [2, 4, 4]),        # long mates searched below their depth: small traces,
+        (ctx.scale(1, 6), 3, (3, 5), [10, 11], True, K3 + K4, [2, 3, 4]),      # short mates: traces full of mate-score nodes
+        (ctx.scale(2, 16), ctx.scale(4, 6), (8, 16), [11, 12], True, K3, [2, 4, 4]),        # long mates searched below their depth: small traces,
         #                                                                       many singular verification searches (record X of hook H3b)
-        (ctx.scale(8, 40), 6, (5, 10), [13, 14], False, ("KQK", "KQK", "KQK", "KRK"), [4]),   # finder only (the trace volume explodes
+        (ctx.scale(2, 40), ctx.scale(3, 6), (5, 10), [12, 13] if q else [13, 14], False, ("KQK", "KQK", "KQK", "KRK"), [4]),   # finder only (the trace volume explodes
         #                                                                       once the mate is found): exact DTM oracle on every claim
-        (ctx.scale(2, 12), 4, (4, 12), [10, 11], False, K4, [2, 3, 4]),       # easy 4-man positions, finder only
+        (ctx.scale(1, 12), 4, (4, 12), [10, 11], False, K4, [2, 3, 4]),       # easy 4-man positions, finder only
     ]
     nmtpos = 0
     for (ns, per, (lo, hi), depths, tr, kinds, thr) in groups:
@@ -1382,7 +1382,8 @@ def plan_sessions(ctx, oracle, engines, harness_exe, traced):
             if not s.get("mt") or s.get("mt_trace"):
                 s["trace"] = os.path.join(d, "trace-%d.txt" % s["idx"])
     dpos = [(f, d) for f, d, _ in mates] + [(f, None) for f in endg[:ctx.scale(8, 60)]] + [(f, None) for f in mated]
-    return sessions, dpos
+    hpos = dtm_endgames(rng, oracle, ctx.scale(32, 300), 4, 12, kinds=K3)
+    return sessions, dpos, hpos
 
 
 # =====================================================================================
@@ -1435,10 +1436,11 @@ def run(ctx):
     # (3b)+(5) searches
     oracle = Oracle(harness_exe)
     try:
-        sessions, dpos = plan_sessions(ctx, oracle, engines, harness_exe, traced)
+        sessions, dpos, hpos = plan_sessions(ctx, oracle, engines, harness_exe, traced)
     finally:
         oracle.close()
     dreqs = directed_requests(ctx, dpos)
+    hreqs = helper_requests(ctx, hpos)
     oracle2 = Oracle(harness_exe)
     try:
         special = null_clamp_scenarios(oracle2)
@@ -1474,12 +1476,44 @@ def run(ctx):
     with ThreadPoolExecutor(max_workers=min(NCPU, 12)) as ex:
         dres = list(ex.map(run_chunk, range(nchunk)))
     ctx.log("directed node searches done: %d requests" % len(dreqs))
+    # searches with an emulated helper thread: one process per request (a defect in the handling of
+    # helper results may make the search loop; a request that does not finish is a break)
+    # traced only where the mate is too far to be found at that depth (small traces: few mate-score
+    # nodes, but record X of hook H3b is written whatever the scores are)
+    htraces = [os.path.join(tdir, "htrace-%d.txt" % i) if traced and hpos[i][1][1] >= 7 else None for i in range(len(hreqs))]
+    htimeout = ctx.scale(90, 600)
+
+    def run_helper(i):
+        env = {"TEXEL_VERIF_TRACE": htraces[i] or ""}
+        rc, out, err = sh([harness_exe], input=hreqs[i] + "\n", timeout=htimeout, env=env)
+        out = out.strip()
+        if rc != 0 or not out or out.startswith("ERR"):
+            return ("hang" if rc == 124 else "crash rc=%s %s" % (rc, out[:80])), [], {}
+        orc = Oracle(harness_exe)
+        st = {}
+        try:
+            f = check_helper_runs(orc, [hreqs[i]], [out], ctx.scale(2, 3), st)
+        finally:
+            orc.close()
+        return None, f, st
+    with ThreadPoolExecutor(max_workers=min(NCPU, 10)) as ex:
+        hres = list(ex.map(run_helper, range(len(hreqs))))
+    ctx.log("emulated-helper searches done: %d requests" % len(hreqs))
     fstats = {}
     finder_fails = []
     for f, st in dres:
         finder_fails += f
         for k, v in st.items():
             fstats[k] = fstats.get(k, 0) + v
+    for i, (problem, f, st) in enumerate(hres):
+        finder_fails += f
+        for k, v in st.items():
+            fstats[k] = fstats.get(k, 0) + v
+        if problem:
+            breaks.append(dict(kind="helper", what="search with an emulated helper thread did not finish normally (%s)" % problem,
+                               request=hreqs[i], fen=hreqs[i][2:].split(" | ")[0]))
+            htraces[i] = None
+    ctx.evaluated(fstats.get("helper_searches", 0))
     ctx.evaluated(fstats.get("directed_nodes", 0))
     nsearch = 0
     for s, (out, fails, stats) in zip(sessions, results):
@@ -1505,7 +1539,8 @@ def run(ctx):
     if traced:
         t1 = time.time()
         with ThreadPoolExecutor(max_workers=min(NCPU, 12)) as ex:
-            units = list(sessions) + [dict(trace=p, options={"directed": True}, net="material") for p in dtraces]
+            units = (list(sessions) + [dict(trace=p, options={"directed": True}, net="material") for p in dtraces]
+                     + [dict(trace=p, options={"emulated_helper": hreqs[i]}, net="material") for i, p in enumerate(htraces)])
             tb = list(ex.map(lambda s: justify_trace(ml_exe, harness_exe, s["trace"]) if s.get("trace") else ([], {}, 0, set()), units))
         for s, (b, st, nev, keys) in zip(units, tb):
             for x in b:
@@ -1594,6 +1629,27 @@ def finder_on_breaks(ctx, breaks, harness_exe, engines):
                     root_fen=b.get("root_fen"), options=b.get("options"), net=b.get("net")))
                 if len(found) >= 3:
                     break
+        if not found:
+            # breaks that involve helper results (multi-threaded / emulated-helper searches): look for a
+            # false announcement with the emulated helper on the positions involved
+            hp = []
+            for b in breaks:
+                mtb = b.get("kind") in ("helper", "state") or (isinstance(b.get("options"), dict) and
+                                                               (b["options"].get("Threads", 1) > 1 or "emulated_helper" in b["options"]))
+                r = b.get("root_fen") or b.get("fen")
+                if mtb and r and r not in hp and sum(1 for c in r.split()[0] if c.isalpha()) <= 4:
+                    hp.append(r)
+            stats = {}
+            t_end = time.time() + ctx.scale(60, 900)
+            for r in hp[:6]:
+                for depth, mode, inj, iv in ((12, 0, 2, 20), (11, 0, 1, 50), (12, 0, 4, 50), (10, 0, 4, 20), (12, 0, 1, 20), (11, 0, 2, 100)):
+                    if time.time() > t_end or found:
+                        break
+                    q = "H %s | %d %d %d %d" % (r, depth, mode, inj, iv)
+                    rc, out, err = sh([harness_exe], input=q + "\n", timeout=40, env={"TEXEL_VERIF_TRACE": ""})
+                    ctx.count("finder_helper_reruns")
+                    if rc == 0 and out.strip() and not out.startswith("ERR"):
+                        found += check_helper_runs(oracle, [q], [out.strip()], ctx.scale(2, 3), stats)
         if not found:
             # re-run the roots of the broken searches at several depths against the solver
             roots = []
